@@ -1,6 +1,7 @@
 import CffiVerif.Model.Preprocess
+import CffiVerif.Generated.PreprocessRegex
 import CffiVerif.Model.Proto
-open CffiVerif CffiVerif.Preprocess CffiVerif.Proto
+open CffiVerif CffiVerif.Preprocess CffiVerif.Proto CffiVerif.Regex CffiVerif.Generated.PreprocessRegex
 
 /-- A text is one word: `-` = empty, else decimal code points joined by `,`. -/
 def text? (s : String) : Option Text :=
@@ -8,6 +9,11 @@ def text? (s : String) : Option Text :=
 
 def textStr (t : Text) : String :=
   if t.isEmpty then "-" else ",".intercalate (t.map toString)
+
+def vmErr : VmErr → String
+  | .fuel => "Fuel"
+  | .badPc => "BadPc"
+  | .emptyMatch => "EmptyMatch"
 
 /-- `strip <text>`: `_r_comment.sub(replace_keeping_newlines, text)`;
 `macros <text>`: the `(name, value)` pairs `_r_define.finditer` yields on the stripped text;
@@ -27,6 +33,32 @@ def step (_ : Unit) : List String → Unit × String
   | ["closed", t] =>
     match text? t with
     | some x => ((), if endMode .code x = .code then "ok 1" else "ok 0")
+    | none => ((), "bad-op")
+  -- the same three operations executed by the automata compiled from the regular expressions of the source
+  | ["nfa-strip", t] =>
+    match text? t with
+    | some x => ((), match subWith commentProg x.toArray (fun m => 32 :: m.filter (· == 10)) with
+        | .ok r => "ok " ++ textStr r
+        | .error e => "err " ++ vmErr e)
+    | none => ((), "bad-op")
+  | ["nfa-defines", t] =>
+    match text? t with
+    | some x =>
+      if x.any (· ≥ 128) then ((), "err NonAscii") else
+      ((), match findAll defineProg x.toArray with
+        | .ok ms => "ok" ++ String.join (ms.map fun m =>
+            match m.group x.toArray 1, m.group x.toArray 2 with
+            | some n, some v => " " ++ textStr n ++ "=" ++ textStr v
+            | _, _ => " ?")
+        | .error e => "err " ++ vmErr e)
+    | none => ((), "bad-op")
+  | ["nfa-linedir", t] =>
+    match text? t with
+    | some x =>
+      if x.any (· ≥ 128) then ((), "err NonAscii") else
+      ((), match findAll lineDirectiveProg x.toArray with
+        | .ok ms => "ok" ++ String.join (ms.map fun m => s!" {m.start}:{m.stop}")
+        | .error e => "err " ++ vmErr e)
     | none => ((), "bad-op")
   | _ => ((), "bad-op")
 
